@@ -120,6 +120,15 @@ def main(argv=None):
             # undecided, never a violation by itself: a construct outside the engine's subset / a hard timeout falls back to the bounded stand-in
             degraded.append({"function": key, "reason": f"{r['status']}: {r.get('detail', '')[:200]} - bounded stand-in only"})
             continue
+        if base.get("shape") is not None and r.get("shape") is not None and base["shape"] != r["shape"]:
+            # the loop statements of the function are not the ones the sidecar loop specifications (keyed by loop ordinal)
+            # were written for - a comprehension became a loop, a loop was split or merged.  The contract's loop anchors no
+            # longer match the code, so whatever fails to prove now is UNDECIDED, not refuted: the bounded stand-in decides.
+            open_now = [k for k, st in list(cl.items()) + list(aux_status(r).items()) if st != "proved"]
+            if open_now:
+                degraded.append({"function": key, "reason": f"restructured: loop statements {r['shape']} differ from the baseline's {base['shape']}; "
+                                 f"the sidecar loop specifications do not apply - bounded stand-in only", "open": open_now[:20]})
+            continue
         if r["status"] in ("anchor-missing",):
             was_ok = any(v == "proved" for v in base.get("clauses", {}).values())
             entry = {"function": key, "reason": f"{r['status']}: {r.get('detail', '')[:200]}", "was_proved": was_ok, "code_changed": base.get("ast_hash") not in (None, r.get("ast_hash"))}
@@ -152,7 +161,7 @@ def main(argv=None):
     if args.update_baseline:
         for r in results:
             if r["status"] == "ok":
-                baseline[r["key"]] = {"ast_hash": r.get("ast_hash"), "clauses": clause_status(r), "aux": aux_status(r)}
+                baseline[r["key"]] = {"ast_hash": r.get("ast_hash"), "shape": r.get("shape"), "clauses": clause_status(r), "aux": aux_status(r)}
         with open(baseline_path, "w") as f:
             json.dump(baseline, f, indent=1, sort_keys=True)
         print(f"baseline updated for {len(results)} functions")
